@@ -242,3 +242,50 @@ Lemma argument_loop_refuted : exists p alen,
   single_initializer_go false (mk_slice p []) alen = OutOfFuel /\
   single_initializer_go true (mk_slice p []) alen = Rej.
 Proof. exists w_std, 16838657. split; vm_compute; reflexivity. Qed.
+
+(* ---- the guest-range check ---- *)
+Lemma pages_iter : forall acc p cnt,
+  snd (N.iter cnt (pages_step acc) (true, p)) = p + cnt /\
+  (fst (N.iter cnt (pages_step acc) (true, p)) = true -> forall q, p <= q < p + cnt -> acc q = true).
+Proof.
+  intros acc p cnt. induction cnt as [|c IH] using N.peano_ind.
+  - cbn. split; [lia|intros _ q Hq; lia].
+  - rewrite N.iter_succ. destruct IH as [I1 I2].
+    destruct (N.iter c (pages_step acc) (true, p)) as [b r]. cbn [fst snd pages_step] in *. subst r.
+    split; [lia|]. intros H q Hq. apply andb_prop in H. destruct H as [H1 H2].
+    destruct (N.eq_dec q (p + c)) as [->|Ne]; [exact H2|]. apply (I2 H1). lia.
+Qed.
+
+Lemma pages_ok_all : forall acc cnt p, pages_ok acc cnt p = true ->
+  forall q, p <= q < p + cnt -> acc q = true.
+Proof. intros acc cnt p H. exact (proj2 (pages_iter acc p cnt) H). Qed.
+
+(* an accepted non-empty range lies inside the 32-bit address space WITHOUT wrap-around, and every page it
+   touches passed the access test: whatever 64-bit values the registers hold *)
+Lemma range_ok_sound : forall acc start off, range_ok_go true acc start off = true -> 0 < off ->
+  start + off <= 4294967296 /\ forall p, start / 4096 <= p <= (start + off - 1) / 4096 -> acc p = true.
+Proof.
+  intros acc start off H Ho. unfold range_ok_go in H.
+  destruct (off =? 0) eqn:E0; [lia|].
+  destruct ((4294967296 <? off) || (4294967296 - off <? start)) eqn:E1; [discriminate|].
+  assert (Hs : start + off <= 4294967296) by lia. split; [exact Hs|].
+  cbv zeta in H. unfold zP in H.
+  rewrite (u64_small (start + off)) in H by lia.
+  replace (start + off + 18446744073709551616 - 1) with (start + off - 1 + 1 * 18446744073709551616) in H by lia.
+  unfold u64 in H. rewrite N.mod_add in H by discriminate. rewrite N.mod_small in H by lia.
+  rewrite !u32_small in H by lia.
+  intros p Hp. apply (pages_ok_all _ _ _ H). lia.
+Qed.
+
+(* so the buffer R makes for the output of a halt is at most the address space, whatever the registers hold *)
+Lemma halt_out_len_bound : forall acc start len, halt_out_len true acc start len <= 4294967296.
+Proof.
+  intros acc start len. unfold halt_out_len. destruct (range_ok_go true acc start len) eqn:E; [|lia].
+  destruct (N.eq_dec len 0) as [->|Ne]; [lia|]. destruct (range_ok_sound acc start len E); lia.
+Qed.
+
+(* the check written as start+offset > 2^32 in uint64 accepts a range of 2^63 bytes with no page mapped at all *)
+Lemma range_wrap_refuted : exists start off,
+  range_ok_go false (fun _ => false) start off = true /\ halt_out_len false (fun _ => false) start off = 9223372036854775808 /\
+  range_ok_go true (fun _ => false) start off = false.
+Proof. exists 9223372036854779904, 9223372036854775808. vm_compute. repeat split; reflexivity. Qed.
